@@ -3,6 +3,7 @@ package main
 import (
 	"fmt"
 	"math/rand"
+	"runtime"
 	"sort"
 	"strings"
 	"sync"
@@ -420,9 +421,140 @@ func checkEvents(l *eventLog, wantAdded, wantRemoved map[uint32]bool, removedAll
 var seqAlphabet = []string{"regA", "regB", "regInvalid", "readyLast", "readyFirst", "readyNever", "unregLast", "unregFirst", "unregNever", "updateLast", "updateRename", "updateInvalid", "serviceA", "serviceB", "services"}
 
 func c15(c *wk.Ctx) {
-	c.Note("rule", "streams: seq = operation sequences over two names applied remotely to one directory and compared step by step with a sequential model (register / ready / unregister / update / service / services with symbolic ids: the last / first id issued in the sequence, an id never issued; invalid infos; renames), random length <= 8 (quick) and exhaustive to length 3 over a 15-symbol alphabet plus sampled longer ones (thorough), clean-up between sequences so that 'never reused' spans sequences; conc = concurrent histories of 3-5 remote clients (ServiceDirectory proxy) plus 1-2 local goroutines (Server.NewService = register+ready sharing one interval, Service.Terminate) over 3-4 names, <= 40 operations, checked with porcupine against the same model; serviceAdded/serviceRemoved events collected by another session must be exactly one per successful ready / unregister-of-ready, in that order. Race detector reports inside bus/directory are violations. Distinct non-trivial = distinct sequences (seq) / histories with at least one overlapping local-remote pair (conc).")
+	c.Note("rule", "streams: seq = operation sequences over two names applied remotely to one directory and compared step by step with a sequential model (register / ready / unregister / update / service / services with symbolic ids: the last / first id issued in the sequence, an id never issued; invalid infos; renames), random length <= 8 (quick) and exhaustive to length 3 over a 15-symbol alphabet plus sampled longer ones (thorough), clean-up between sequences so that 'never reused' spans sequences; conc = concurrent histories of 3-5 remote clients (ServiceDirectory proxy) plus 1-2 local goroutines (Server.NewService = register+ready sharing one interval, Service.Terminate) over 3-4 names, <= 40 operations, checked with porcupine against the same model; serviceAdded/serviceRemoved events collected by another session must be exactly one per successful ready / unregister-of-ready, in that order. race = 20-60 rounds per world in which the server's local NewService (register + ready) overlaps a remote unregister of the identifier it is about to get: per identifier the events on one connection are none, or one added followed by one removed. Race detector reports inside bus/directory are violations. Distinct non-trivial = distinct sequences (seq) / histories with at least one overlapping local-remote pair (conc).")
 	c15seq(c)
 	c15conc(c)
+	c15race(c)
+}
+
+// c15race: the hosting server registers and readies a service locally (Server.NewService) while a
+// remote client unregisters the identifier that service is about to get (identifiers are consecutive,
+// so they can be predicted): the two transitions of ONE service overlap. Whatever the outcome, the
+// events seen on one connection for that identifier are: nothing (the service never became ready) or
+// exactly one serviceAdded followed by exactly one serviceRemoved.
+func c15race(c *wk.Ctx) {
+	c.Cases("race", c.Pick(40, 1200), func(i int, rng *rand.Rand) {
+		w, err := newWorld("unix", nil)
+		if err != nil {
+			c.Inconclusive("race", i, "world: "+err.Error())
+			return
+		}
+		defer w.close()
+		var progress int64
+		sess, err := w.session()
+		if err != nil {
+			c.Inconclusive("race", i, err.Error())
+			return
+		}
+		defer sess.Terminate()
+		d, err := services.ServiceDirectory(sess)
+		if err != nil {
+			c.Inconclusive("race", i, err.Error())
+			return
+		}
+		log, stop, err := watchEvents(d, &progress, w.addr)
+		if err != nil {
+			c.Inconclusive("race", i, err.Error())
+			return
+		}
+		defer stop()
+		first, err := w.server.NewService("first", probe.ProbeObject(svc.NewImpl("first")))
+		if err != nil {
+			c.Inconclusive("race", i, "NewService: "+err.Error())
+			return
+		}
+		next := first.ServiceID() + 1
+		wantAdded := map[uint32]bool{first.ServiceID(): true}
+		rounds := 20 + rng.Intn(40)
+		readyAndRemotelyRemoved, neverReady := 0, 0
+		var outcomes []string
+		for k := 0; k < rounds; k++ {
+			id := next
+			next++
+			name := fmt.Sprintf("r%d", k)
+			start := make(chan struct{})
+			var s bus.Service
+			var nerr error
+			var unregOK int32
+			spins := 1 + rng.Intn(4)
+			yields := rng.Intn(30)
+			var wg sync.WaitGroup
+			wg.Add(2)
+			go func() {
+				defer wg.Done()
+				<-start
+				s, nerr = w.server.NewService(name, probe.ProbeObject(svc.NewImpl(name)))
+				atomic.AddInt64(&progress, 1)
+			}()
+			go func() {
+				defer wg.Done()
+				<-start
+				for y := 0; y < yields; y++ {
+					runtime.Gosched()
+				}
+				for t := 0; t < spins; t++ {
+					if d.UnregisterService(id) == nil {
+						atomic.StoreInt32(&unregOK, 1)
+						break
+					}
+				}
+				atomic.AddInt64(&progress, 1)
+			}()
+			close(start)
+			done := make(chan struct{})
+			go func() { wg.Wait(); close(done) }()
+			detail := map[string]interface{}{"round": k, "predicted_id": id}
+			if v, dump := stuck.Wait(done, &progress, 3*time.Minute); v == stuck.Stuck {
+				detail["dump"] = clipDump(dump)
+				c.Viol("race", i, "operation=never-returned/"+wk.PanicSite(dump), "a directory operation never returned", detail)
+				c.Abandon("directory blocked")
+				return
+			} else if v == stuck.Watchdog {
+				c.Inconclusive("race", i, "watchdog")
+				return
+			}
+			switch {
+			case nerr != nil:
+				neverReady++
+				outcomes = append(outcomes, fmt.Sprintf("%d:never-ready(unregistered=%v)", id, unregOK == 1))
+			case s.ServiceID() != id:
+				c.Inconclusive("race", i, fmt.Sprintf("identifier prediction failed: got %d, predicted %d", s.ServiceID(), id))
+				return
+			default:
+				wantAdded[id] = true
+				if unregOK == 1 {
+					readyAndRemotelyRemoved++
+				}
+				outcomes = append(outcomes, fmt.Sprintf("%d:ready(remotely-unregistered=%v)", id, unregOK == 1))
+				s.Terminate() // unregisters it if it is still there
+			}
+		}
+		first.Terminate()
+		wantRemoved := map[uint32]bool{}
+		for id := range wantAdded {
+			wantRemoved[id] = true
+		}
+		detail := map[string]interface{}{"rounds": rounds, "outcomes": outcomes}
+		if k, msg := checkEvents(log, wantAdded, wantRemoved, nil, &progress); k != "" {
+			log.mu.Lock()
+			detail["event_order"] = fmt.Sprint(log.order)
+			log.mu.Unlock()
+			c.Viol("race", i, "race="+k, msg, detail)
+			return
+		} else if msg == "watchdog" {
+			c.Inconclusive("race", i, "watchdog (events)")
+			return
+		}
+		c.Count("race_rounds", int64(rounds))
+		c.Count("race_rounds_ready_then_remotely_unregistered", int64(readyAndRemotelyRemoved))
+		c.Count("race_rounds_unregistered_before_ready", int64(neverReady))
+		if readyAndRemotelyRemoved > 0 {
+			c.Nontrivial(wk.Hash64("race", i))
+		}
+		if c.WantSample() && i%10 == 0 {
+			c.Sample(map[string]interface{}{"stream": "race", "rounds": rounds, "ready_then_remotely_unregistered": readyAndRemotelyRemoved, "unregistered_before_ready": neverReady})
+		}
+	})
 }
 
 type seqWorld struct {
